@@ -136,7 +136,12 @@ func c04Alloc(m map[string][]string) string {
 		c04Tables[name] = t
 		module.RegisterInstance(t, nil)
 	}
-	t.m = m
+	// the table gets its own copy: what the code under test does to the slices it is handed
+	// must not reach the reference interpreter, which reads the configuration's map
+	t.m = map[string][]string{}
+	for k, v := range m {
+		t.m[k] = append([]string{}, v...)
+	}
 	return name
 }
 
@@ -277,6 +282,16 @@ func c04Rewrite(m map[string][]string, addrs []string) []string {
 		k, _ := c04Key(a)
 		if r, ok := m[k]; ok && len(r) > 0 {
 			out = append(out, r...)
+		} else if i := strings.LastIndex(k, "@"); i > 0 && len(m[k[:i]]) > 0 {
+			// no entry for the address: an entry for its local part applies; a replacement
+			// without a domain keeps the domain of the address
+			for _, rep := range m[k[:i]] {
+				if strings.Contains(rep, "@") {
+					out = append(out, rep)
+				} else {
+					out = append(out, rep+"@"+k[i+1:])
+				}
+			}
 		} else {
 			out = append(out, a)
 		}
@@ -451,8 +466,8 @@ func c04Check(r *vx.Run, cfg *c04Cfg, sampleIdx int) {
 	}
 	for _, from := range c04Senders {
 		for _, rcpt := range c04Rcpts {
-			// tables are shared module instances: re-install this configuration's contents
-			cfg.build()
+			// (the tables keep the contents installed when the configuration was built: all
+			// envelopes of a configuration go through one pipeline and one set of table instances)
 			var want c04Out
 			cfg.interpret(from, rcpt, &want)
 			if want.Refused != 0 {
@@ -529,7 +544,7 @@ func TestVerifC04(t *testing.T) {
 	r := vx.Start("C04", "routing")
 	defer r.Finish()
 	c04Setup()
-	r.Rule("configurations generated from the directive grammar (source / source_in / default_source, destination / destination_in / default_destination with 1-2 clauses from 8 rule sets incl. case, NFD, A-label and upper-case A-label spellings and duplicates, reject with 2 codes, deliver_to with 1-2 targets, global / source / destination modify with 1->1, 1->2 and chained 1->2->3 recipient rewriting, reroute with a nested pipeline), each loaded by the real msgpipeline.New and driven with every envelope of 10 senders x 11 recipients (spelling variants, null sender, postmaster); ill-formed shapes (handling directive next to rules, missing default, reject+deliver_to, empty block) must be refused at load; oracle: independent interpreter of docs/reference/smtp-pipeline.md (tables, then full address, then domain, then default; first declaration wins; sender then recipient; rewriting of enclosing scopes first). Non-trivial: distinct accepted configurations")
+	r.Rule("configurations generated from the directive grammar (source / source_in / default_source, destination / destination_in / default_destination with 1-2 clauses from 8 rule sets incl. case, NFD, A-label and upper-case A-label spellings and duplicates, reject with 2 codes, deliver_to with 1-2 targets, global / source / destination modify with 1->1, 1->2 and chained 1->2->3 recipient rewriting, an entry keyed by the local part with a domain-less replacement, reroute with a nested pipeline), each loaded by the real msgpipeline.New and driven with every envelope of 10 senders x 11 recipients (spelling variants, null sender, postmaster); ill-formed shapes (handling directive next to rules, missing default, reject+deliver_to, empty block) must be refused at load; oracle: independent interpreter of docs/reference/smtp-pipeline.md (tables, then full address, then domain, then default; first declaration wins; sender then recipient; rewriting of enclosing scopes first). Non-trivial: distinct accepted configurations")
 	if rp := r.Replay(); rp != nil {
 		var c c04Case
 		if json.Unmarshal(rp, &c) != nil || c.Cfg == nil {
@@ -594,10 +609,13 @@ func TestVerifC04(t *testing.T) {
 	rw2 := map[string][]string{"x@unrelated.example": {"r1@dest.example", "r2@пример.рф"}}
 	rw3 := map[string][]string{"r1@dest.example": {"r2@dest.example", "alias@dest.example"}}
 	rw4 := map[string][]string{"r2@dest.example": {"x@unrelated.example", "alias@dest.example"}}
+	// an entry keyed by a local part whose replacement has no domain: every domain keeps its own
+	rw5 := map[string][]string{"r1": {"alias"}}
 	for i, d := range dests {
 		if i%3 != 0 && !vx.Thorough() {
 			continue
 		}
+		do(&c04Cfg{Only: d, Rewrite: rw5})
 		d1 := *d
 		d1.Rewrite = rw1
 		do(&c04Cfg{Only: &d1})
